@@ -35,6 +35,8 @@ func main() {
 		cmdParse(os.Args[2:])
 	case "proc":
 		cmdProc(os.Args[2:])
+	case "alone":
+		drv.AloneMain()
 	default:
 		fmt.Fprintln(os.Stderr, "unknown subcommand", os.Args[1])
 		os.Exit(2)
